@@ -284,14 +284,15 @@ def mergeLinks : List LinkEntry → List (Nat × Str × Option Entry) → Option
       match (es.reverse.find? fun x => x.2.1 == l.e.selector && !x.2.1.isEmpty) with
       | some (i, _, _) =>
         if l.e.type == some (lit "X") then
-          -- list.remove(obj): ValueError if it is no longer in the list
-          match es.find? (fun x => x.1 == i) with
-          | some (_, _, some _) => mergeLinks ls (es.map fun x => if x.1 == i then (x.1, x.2.1, none) else x)
-          | _ => none
+          -- `if hidden in self.fileentries: remove(hidden)`: hiding what is already hidden does nothing
+          mergeLinks ls (es.map fun x => if x.1 == i then (x.1, x.2.1, none) else x)
         else
           mergeLinks ls (es.map fun x =>
             if x.1 == i then (x.1, x.2.1, x.2.2.map fun old => mergeEntries old l.e) else x)
-      | none => mergeLinks ls (es ++ [(es.length, [], some l.e)])
+      | none =>
+        -- a hide block for a file that is not listed hides nothing and adds nothing
+        if l.e.type == some (lit "X") then mergeLinks ls es
+        else mergeLinks ls (es ++ [(es.length, [], some l.e)])
 
 /-- the whole `prepare()` for a directory whose members are `kids` (in `listdir` order) -/
 def dirListing (c : DirCfg) (dirSel : Str) (kids : List Child) : Option (List Entry) :=
